@@ -249,7 +249,7 @@ impl Prop for C11 {
         if let Err(e) = p2.parse() {
             return Outcome::fail(
                 "formatted-text-does-not-parse",
-                format!("source:\n{src}\nformatted:\n{formatted}\n{}", e.to_string_from_source(&formatted)),
+                format!("source:\n{src}\nformatted:\n{formatted}\n{e}"),
             );
         }
         let mut fails = vec![];
@@ -277,6 +277,16 @@ impl Prop for C11 {
         }
         let nontrivial = src.contains('(') || src.contains('{') || src.contains("not") || src.contains('!');
         let mut labels = vec![];
+        // "never turns a valid program into an invalid one": the checker's verdict as well
+        let consts = IndexMap::new();
+        match (p.type_check(&vec![], &consts), p2.type_check(&vec![], &consts)) {
+            (Ok(_), Err(e)) => fails.push((
+                "formatted-text-fails-type-check".to_string(),
+                format!("source (accepted by the type checker):\n{src}\nformatted:\n{formatted}\n{e}"),
+            )),
+            (Err(_), Ok(_)) => labels.push("only-formatted-text-type-checks".to_string()),
+            _ => {}
+        }
         if a.is_err() {
             labels.push("transform-error-both".to_string());
         }
